@@ -549,6 +549,37 @@ func init() {
 				DoCall(in.W, in.Target.Func, args)
 				res.Evals++
 				res.obs("underivable_calls_after_a_satisfied_call_on_the_same_objects", 1)
+				if c.Idx%4 == 1 {
+					// ... through a caller's wrapper built over the target's
+					// OWN input and output sets (the documented
+					// BuildFunc(f.Input(), f.Output(), cb) pattern), which
+					// the library fills with the values of that call
+					tf := in.Target.Func
+					if px, err := am.BuildFunc(tf.Input(), tf.Output(), func(vin, vout *am.ValueSet) error {
+						rr := tf.Call(append(append([]am.Arg{}, in.ConvArgs...), vin.Args()...)...)
+						if rr.Err() != nil {
+							return rr.Err()
+						}
+						return vout.FromResult(rr)
+					}); err == nil {
+						if o := DoCall(in.W, px, args); o.Class == ClsOK {
+							res.obs("underivable_calls_after_a_satisfied_wrapper_call_over_the_targets_own_sets", 1)
+						}
+						res.Evals++
+					}
+				}
+				if c.Idx%2 == 0 {
+					// ... and a function redefined from the target (only the
+					// converters fixed, every parameter still an input) has
+					// been called with those values: a wrapper built over
+					// the target's own input and output sets has run
+					if ro := DoRedefine(in.W, in.Target.Func, append([]am.Arg{}, in.ConvArgs...)); ro.Func != nil && ro.Err == nil {
+						if o := DoCall(in.W, ro.Func, args); o.Class == ClsOK {
+							res.obs("underivable_calls_after_a_satisfied_redefined_call_on_the_same_objects", 1)
+						}
+						res.Evals += 2
+					}
+				}
 			}, nil)
 			res.obs("family."+fam, 1)
 			if !cf.fMay.AllOK {
